@@ -45,6 +45,11 @@ def gen_cases(seed, tier):
         key = f"keyed=prng/{rng.below(9999)}/32"
         lines.append(f"H {key} {plat} tk tu:1:paint/0/3000 u:0:paint/0/3000 tf:1 f:0 tx:1:100 x:0:100")
         lines.append(f"H hash {plat} td tu:1:hex/616263 tf:1 oh:hex/616263")
+        # KeyInit::new_from_slice: exactly the 32-byte keys (every length 0..40, 48, 64, 96 on one platform is enough:
+        # the key check does not depend on the platform)
+        if plat == PLATFORMS[0]:
+            for n in list(range(0, 41)) + [48, 63, 64, 65, 96, 128]:
+                lines.append(f"tks prng/{rng.below(9999)}/{n} {bspec(rng, rng.choice([0, 3, 65, 1025]))}")
         # guts
         for ctr in [0, 1, (1 << 32) - 1, 1 << 32, 1 << 63, (1 << 64) - 1]:
             for _ in range(3 if tier == "thorough" else 1):
